@@ -221,6 +221,18 @@ CHECKS = {
         technique="symbolic execution of the real Combiner (z3 proxies) + z3 equality of formal linear forms",
         design="§4 C07",
     ),
+    "C08": dict(
+        text="PARTIAL (charged-current channels only). The real heavy CC quark and gluon classes of F2, FL, F3 (Gluck-Kretzer-Reya closed forms, LO and NLO) "
+             "run on symbolic z, x, Q2 and a symbolic mass; under the hypotheses m2 = 0 and ln(1-lambda) = -L (the collinear logarithm kept as a free real, "
+             "linked to the L = ln(Q2/m2) of the asymptotic classes) z3 proves regular+singular and local parts equal to those of asy.AsyQuark/AsyGluon for "
+             "ALL z, x, Q2, L, and that no denominator of the compared terms vanishes at m2 = 0 (continuity of everything but the formal logarithm): massive "
+             "minus asymptotic tends to zero with all logarithms retained. No finite set of (x, Q2/m2) samples shows a limit. NOT claimed: neutral-current heavy "
+             "channels (LeProHQ/adani/tabulated grids are external and uninterpreted), intrinsic and 'missing' channels, NNLO, the power of the suppression, "
+             "numerical size at finite Q2/m2.",
+        note=TRUST + "; candidates are replayed on floats at Q2/m2 = 1e4, 1e6, 1e8; a residual of pure float-constant noise <= 1e-9 is forgiven.",
+        technique="symbolic execution of the real heavy/asy CC classes (z3 proxies, formal collinear logarithm) + z3 NRA validity queries under the limit hypotheses",
+        design="§4 C08 (as built: §8.5)",
+    ),
     "C12": dict(
         text="Combiner.apply_isospin runs on kernels with symbolic weights for all 16 up/down key patterns and z3 proves "
              "sum_p w'_p f_p = sum_p w_p f'_p for ALL real Z, A != 0, weights and formal PDFs; the real Combiner for a symbolic "
@@ -273,8 +285,6 @@ CHECKS = {
 }
 
 NOT_APPLICABLE = {
-    "C08": "asymptotic limit Q2/m2 -> oo through external libraries (LeProHQ/adani/tabulated grids): the functional dependence "
-           "that makes the difference vanish is exactly what atoms abstract away; no interval/Taylor-model solver installed",
     "C19": "convergence of an interpolation/quadrature scheme under grid refinement: lives in eko's polynomials and QUADPACK, "
            "no finite algebraic core in yadism to hand to an SMT solver",
 }
